@@ -623,6 +623,7 @@ class UCSolutionEnumerator():
                         w = merged_levels[df].window
                         if not w.predicate(*[(merged_levels[f]).name for f in w.factors]):
                             sc_indices.remove(sc_idx)
+                            break
 
             components_shape.combinations_shapes.append(len(sc_indices))
             if isinstance(valid_source_combinations_indices, list):
